@@ -171,6 +171,8 @@ def run(run):
                 ('bitmap', cat['bitmap'], dict(subset_counts=(1, 2) if thorough else (2,), fmax=2, seeds=((r + 1) % 5,))),
                 ('plain', plain, dict(subset_counts=(2,), seeds=((r + 2) % 5,))),
                 ('repeats', REPEATS, dict(subset_counts=(1, 2), fmax=2, seeds=((r + 3) % 5,)))]
+        plan.append(('rnd struct', [t for t in cat['rnd_struct'] if ndel(t) <= 1], dict(subset_counts=(2,), fmax=2, seeds=((r + 2) % 5,), compressions=(False,))))
+        plan.append(('rnd bitmap', cat['rnd_bitmap'], dict(subset_counts=(2,), fmax=2, seeds=((r + 3) % 5,), compressions=(False, True) if thorough else (False,))))
         if not thorough:
             plan.append(('struct nested', heavy, dict(subset_counts=(1,), fmax=1, seeds=((r + 4) % 5,))))
         total_q = 0
